@@ -779,7 +779,11 @@ pub mod verif {
     }
 
     /// `DecoderInner::read_uint_prefilled` with the given configuration and token.
-    pub fn read_uint_prefilled(bitstream: &mut Bitstream, conf: &IntConf, token: u32) -> u32 {
+    pub fn read_uint_prefilled(
+        bitstream: &mut Bitstream,
+        conf: &IntConf,
+        token: u32,
+    ) -> CodingResult<u32> {
         let inner = DecoderInner {
             clusters: Vec::new(),
             configs: Vec::new(),
